@@ -99,6 +99,40 @@ P 2 recv r0 ; recv r0
 """
 
 
+# payload copy-out races (chanx A): `V::clone` is a scheduling point of the shim and a logged action, so the DFS can
+# run the producer between a consumer's index loads and its copy-out / between two copies of one batch. These runs
+# KEEP their monitor lines: a tail published before the copy-out shows as a concrete history (value skipped /
+# duplicated / out of order, send completed over an unread value) besides the step-level MISMATCH.
+RACE_CASES = """#case spmcb-race-batch-recheck flavour=spmc cap=2 threads=2 strategy=replay seed=1 mode=dfs atomics=1
+P 0 try_send_batch s0 1,2
+P 1 try_send s0 3 ; try_send s0 4
+P 2 try_recv_batch r0 2 ; try_recv_batch r0 2
+#end
+#case spmcb-race-single-recheck flavour=spmc cap=1 threads=2 strategy=replay seed=1 mode=dfs atomics=1
+P 0 try_send s0 1
+P 1 try_send s0 2 ; try_send s0 3
+P 2 try_recv r0 ; try_recv r0
+#end
+#case spmcb-race-batch-other-receiver flavour=spmc cap=2 threads=3 strategy=replay seed=1 mode=dfs atomics=1
+P 0 clone r0 r1 ; try_send_batch s0 1,2
+P 1 send s0 3
+P 2 recv_batch r0 2
+P 3 recv r1 ; recv r1
+#end
+"""
+
+
+def race_tie(ctx, h, drv):
+    """bounded DFS over the copy-out race programs, monitors kept and judged under the checked property"""
+    import chanlib
+    f = os.path.join(ctx.rundir, "spmcb_race.case")
+    open(f, "w").write(RACE_CASES)
+    t = ctx.tie("spmcb-copyout-race-dfs",
+                [h, "dfs", f, "--preempt", "2", "--max-runs", "1300" if ctx.quick else "30000", "--all", "--atomics"],
+                [drv], timeout=3000)
+    return chanlib.classify(ctx, t)
+
+
 def tie(ctx):
     drv = ctx.lean_exe("fvdrv_spmcb")
     h = ctx.cargo_build("chan", "chanh", rustflags=CHAN_RUSTFLAGS)
@@ -121,6 +155,7 @@ def tie(ctx):
     ts.append(ctx.tie("spmcb-atomics-dfs",
                       _cmd(h, "dfs", dfs, "--preempt", "2", "--max-runs", "400" if ctx.quick else "20000", "--all", "--atomics"),
                       [drv], timeout=3000))
+    ts.append(race_tie(ctx, h, drv))
     return ts
 
 
